@@ -244,7 +244,8 @@ def a_question_cases(thorough):
             yield {"A": {"hdr": DEF_HDR, "q": [q1, q2], "an": [], "ns": [], "ar": []}}
 
 
-def a_single_record_cases():
+def a_single_record_cases(thorough):
+    extremes = ((1, 60), (0, 0), (65535, 0xFFFFFFFF), (255, 0x80000000))
     for sec in ("an", "ns", "ar"):
         for n in A_NAMES:
             for ty in A_TYPES:
@@ -252,7 +253,7 @@ def a_single_record_cases():
                     d = rdata_of(ty, kind)
                     if d is None or (kind in PTR_KINDS and R.rdata_group(ty) == "name-rdata"):
                         continue  # a bare (dangling) pointer where the type's RDATA has a name is not a well-formed record
-                    for cls, ttl in ((1, 60), (0, 0), (65535, 0xFFFFFFFF), (255, 0x80000000)):
+                    for cls, ttl in (extremes if thorough or kind in ("typed", "typed-ptrlike") else extremes[2:3]):
                         body = {"hdr": DEF_HDR, "q": [["a.b", ty, 1]], "an": [], "ns": [], "ar": []}
                         body[sec] = [[n, ty, cls, ttl, d]]
                         yield {"A": body}
@@ -618,7 +619,7 @@ def all_cases(thorough):
         yield c
     for c in a_question_cases(thorough):
         yield c
-    for c in a_single_record_cases():
+    for c in a_single_record_cases(thorough):
         yield c
     for c in a_multi_record_cases(thorough):
         yield c
